@@ -21,14 +21,13 @@ PROPERTIES_V = "theories/Properties/C19.v"
 CASE_IMPORTS = "From GV Require Import Prelude.Base Model.H5Read.\nFrom Coq Require Import String.\nLocal Open Scope string_scope.\nLocal Open Scope list_scope."
 ALLOWED_AXIOMS: list = []
 REFUTED = [
-    "C19_optional_full (C19_optional_refuted, for the pinned source [nested_scan = false]: deleting the optional Root link of a file "
-    "with nested groups hangs a nested group on the rebuilt root; witness corpus/C19/0001-root-link-nested.json; repair in "
-    "fixes/C19-root-rebuild-keeps-hierarchy.patch)",
-    "C19_mandatory_full (C19_mandatory_refuted: a missing Name is replaced by the class default instead of an error / leaving the "
-    "entity out; witness corpus/C19/0002-name-defaulted.json)",
+    "C19_optional_full false (C19_optional_refuted_old_rebuild: the explicit old-rebuild variant of the model, every flat entry "
+    "attached to the new root in identifier order, hangs a nested group on the rebuilt root; this was the pinned source before "
+    "fixes/C19-root-rebuild-keeps-hierarchy.patch; witness corpus/C19/0001-root-link-nested.json)",
+    "C19_mandatory_full (C19_mandatory_refuted, either rebuild: a missing Name is replaced by the class default instead of an error "
+    "/ leaving the entity out; witness corpus/C19/0002-name-defaulted.json)",
 ]
 PARTIAL = [
-    "C19_optional_deletion_tolerated_partial (every optional item except the Root link; missing: the Root link, refuted)",
     "C19_mandatory_deletion_local_partial (error, or everything outside the described entities and their descendants unchanged; "
     "missing: that the described entities are left out rather than kept with defaults, refuted)",
 ]
@@ -57,17 +56,19 @@ RULE = (
 )
 LEVEL_TEXT = (
     "Proved in Coq (closed, no axioms) for all laid-out entity trees (any depth and width, unique identifiers, groups/objects/data "
-    "with types, colour/value maps, property groups, datasets) and ALL single deletions of one attribute or one link except the "
-    "Root link: the model reader raises or returns a tree that agrees with the intact content outside the entities the item "
-    "describes and their descendants (C19_mandatory_deletion_local_partial), and for items the format document makes optional it "
-    "does not raise (C19_optional_deletion_tolerated_partial); the intact file reads back as its content. Both full statements of "
-    "DESIGN 5/C19 are refuted with vm_compute witnesses that are replayed on geoh5py (Root link of a nested file re-parents "
-    "groups; a missing mandatory Name is defaulted). The reader's guards are extracted by ast on every run (80 rows) and the 20 "
-    "rows the model consumes are checked by vm_compute (C19_reader_guards/_table): removing a try/except, a .get or an `in` test "
-    "breaks them. Tie: every corpus file is checked to be a laid-out well-formed tree (scan_matchb, wfb, intact_ok) and every "
-    "selected single deletion of the 6 modelled family files is replayed on geoh5py and compared with the model inside Coq "
-    "(error kind, lost set, altered set, fresh identifiers, theorem instance); the concatenated (v2) drillhole family is "
-    "oracle-only; the Version-dependent choice of concatenated classes is not modelled."
+    "with types, colour/value maps, property groups, datasets) and ALL single deletions of one attribute or one link: for every "
+    "item the format document makes optional, the Root link included, the model reader opens the file and returns every entity "
+    "the item does not describe unchanged (C19_optional_deletion_tolerated, full statement, for the rebuild of the current source: "
+    "C19_source_rebuild_scans_children ties the extracted flag to it); for every mandatory item it raises or returns a tree that "
+    "agrees with the intact content outside the described entities and their descendants (C19_mandatory_deletion_local_partial; "
+    "the stricter 'left out' is refuted: a missing Name is defaulted); the intact file reads back as its content. The old rebuild "
+    "(explicit false variant of the model function) is refuted with a vm_compute witness. The reader's guards are extracted by ast "
+    "on every run (rows with file:line) and the 20 rows the model consumes are checked by vm_compute (C19_reader_guards/_table): "
+    "removing a try/except, a .get or an `in` test breaks them. Tie: every corpus file is checked to be a laid-out well-formed tree "
+    "(scan_matchb, wfb, intact_ok) and every selected single deletion of the 6 modelled family files is replayed on geoh5py and "
+    "compared with the model inside Coq (error kind, lost set, altered set - exactly for the Root link -, fresh identifiers, "
+    "theorem instance); the concatenated (v2) drillhole family is oracle-only; the Version-dependent choice of concatenated "
+    "classes is not modelled."
 )
 TECHNIQUE = "Coq proof by induction on the loader's fuel over laid-out trees + extracted guard table + exhaustive single-fault replay"
 DRIVE_TIMEOUT = 1700
@@ -295,6 +296,8 @@ def drive_one(case, work):
                 kb = [c for c in b["children"] if c not in dset and c in ref["entities"]]
                 if ka != kb:
                     kids_bad.append(o(u))
+            if it["kind"] == "link|workspace|Root" and ref["root"] in w["entities"]:
+                ob["old_root_after"] = w["entities"][ref["root"]]["class"]  # the old root group, now a child of the rebuilt root
             ob.update({"lost": [o(u) for u in lost], "new": len(new), "new_classes": sorted(w["entities"][u]["class"] for u in new),
                        "alt_own": sorted(alt_own), "alt_derived": sorted(alt_der), "detail": detail, "kids_bad": sorted(kids_bad),
                        "proj_changed": w["project"] != ref["project"],
@@ -550,6 +553,9 @@ def histogram(cases, obs):
             h["class"][cl] = h["class"].get(cl, 0) + 1
             if ob["mitem"] is not None:
                 h["model_compared"] += 1
+            if ob.get("old_root_after"):
+                k2 = "old root returned as " + ob["old_root_after"] + " under the rebuilt root"
+                h.setdefault("root_rebuild", {})[k2] = h.setdefault("root_rebuild", {}).get(k2, 0) + 1
     for fam, ks in h["kinds_covered"].items():
         h["kinds_covered"][fam] = f"{len(ks['covered'])}/{ks['total']}"
     return h
